@@ -361,7 +361,18 @@ def check_stats(cur):
                 twins = [r for r in rejected if key_time(r) == t and any(key_time(a) == t and a['pre']['riar'] == r['pre']['riar'] and a['slot'] != r['slot'] for a in acc)]
                 if not twins:
                     explained = False
-            if explained:
+            # Recorded finding, third variant: a rejected attempt with a HIGHER restart count ENDS exactly where an accepted
+            # attempt with a lower restart count STARTS (start-keyed types) or ENDS (end-keyed types); the '_recomputed' marker the rejected attempt leaves at its end time
+            # outranks the accepted attempt's start-keyed records, which the filter then drops (a record is MISSING)
+            explained_missing = bool(missing) and not extra
+            for t, v in missing:
+                acc_here = [a for a in acc if key_time(a) == t]
+                ends_here = [r for r in rejected if r['time'] + r['post']['dt'] == t and acc_here and r['pre']['riar'] > acc_here[0]['pre']['riar']]
+                if not ends_here:
+                    explained_missing = False
+            if explained_missing:
+                cur.viol.append(({'kind': 'filtered_records', 'cause': 'a rejected attempt with a higher restart count ends at the time an accepted attempt with a lower restart count starts or ends'}, {'type': typ, 'missing_times': [t for t, _ in missing], 'cfg': cfg_key_small(cur.cfg)}))
+            elif explained:
                 cur.viol.append(({'kind': 'filtered_records', 'cause': f'rejected and accepted attempt {when} at the same time with equal restart count in different slots'}, {'type': typ, 'extra_times': [t for t, _ in extra], 'cfg': cfg_key_small(cur.cfg)}))
             else:
                 cur.v(
@@ -404,7 +415,12 @@ def check_stats(cur):
             # share start time and restart count with an accepted attempt of another slot
             rejected = [a for a in allatt if a not in acc]
             twins = [r for r in rejected if any(a['time'] == r['time'] and a['pre']['riar'] == r['pre']['riar'] and a['slot'] != r['slot'] for a in acc)]
-            if twins and len(got) - exp == sum(r['niter_cb'] for r in twins):
+            # third variant (records MISSING): accepted attempts that start where a rejected attempt with a higher restart
+            # count ended lose their iteration records
+            shadowed = [a for a in acc if any(r['time'] + r['post']['dt'] == a['time'] and r['pre']['riar'] > a['pre']['riar'] for r in rejected)]
+            if shadowed and exp - len(got) == sum(a['niter_cb'] for a in shadowed):
+                cur.viol.append(({'kind': 'filtered_records', 'cause': 'a rejected attempt with a higher restart count ends at the time an accepted attempt with a lower restart count starts or ends'}, {'type': 'residual_post_iteration', 'missing_times': sorted({a['time'] for a in shadowed}), 'cfg': cfg_key_small(cur.cfg)}))
+            elif twins and len(got) - exp == sum(r['niter_cb'] for r in twins):
                 cur.viol.append(({'kind': 'filtered_records', 'cause': 'rejected and accepted attempt start at the same time with equal restart count in different slots'}, {'type': 'residual_post_iteration', 'extra_times': sorted({r['time'] for r in twins}), 'cfg': cfg_key_small(cur.cfg)}))
             else:
                 cur.v('filtered_records', type='residual_post_iteration', n_got=len(got), n_expected=exp)
